@@ -449,8 +449,13 @@ func loadReportBuilder(p *Prog) (*rbModel, error) {
 		return nil, fmt.Errorf("internal/validator not found")
 	}
 	info := pk.TypesInfo
-	var build *ast.FuncDecl
+	// candidates: functions with a rego.ResultSet parameter; the builder is the one whose evaluation (helpers interpreted)
+	// stores the report node's conforms key: the outermost stage that sees both the evaluation result and the report
+	var cands []*ast.FuncDecl
 	for _, f := range pk.Syntax {
+		if strings.HasSuffix(pk.Fset.Position(f.Pos()).Filename, "_test.go") {
+			continue
+		}
 		for _, d := range f.Decls {
 			fd, ok := d.(*ast.FuncDecl)
 			if !ok || fd.Body == nil || fd.Type.Params == nil {
@@ -458,37 +463,55 @@ func loadReportBuilder(p *Prog) (*rbModel, error) {
 			}
 			for _, prm := range fd.Type.Params.List {
 				if tv, ok := info.Types[prm.Type]; ok && strings.HasSuffix(tv.Type.String(), "rego.ResultSet") {
-					hasKey := false
-					ast.Inspect(fd.Body, func(n ast.Node) bool {
-						if ix, ok := n.(*ast.IndexExpr); ok {
-							if s, ok := constString(info, ix.Index); ok && isLevelWord(s) {
-								hasKey = true
-							}
-						}
-						return true
-					})
-					if hasKey {
-						build = fd
-					}
+					cands = append(cands, fd)
+					break
 				}
 			}
 		}
 	}
-	if build == nil {
-		return nil, fmt.Errorf("the function that reads the level buckets from the evaluation result was not found")
-	}
-	m := &rbModel{pk: pk, build: build, stores: map[string][]rbStore{}}
-	proto := &symWalker{Inline: samePkgInline(pk)}
-	proto.OnStore = func(w *symWalker, at ast.Node, target *Sym, key *Sym, val *Sym) {
-		if k, ok := key.ConstString(); ok {
-			switch k {
-			case "resultSeverity", "conforms", "result", "@id", "profileName", "dateCreated":
-				m.stores[k] = append(m.stores[k], rbStore{target, val, w.Conds(), at.Pos(), w.FuncName()})
+	var best *rbModel
+	for _, fd := range cands {
+		m := &rbModel{pk: pk, build: fd, stores: map[string][]rbStore{}}
+		proto := &symWalker{Inline: samePkgInline(pk)}
+		proto.OnStore = func(w *symWalker, at ast.Node, target *Sym, key *Sym, val *Sym) {
+			if k, ok := key.ConstString(); ok {
+				switch k {
+				case "resultSeverity", "conforms", "result", "@id", "profileName", "dateCreated":
+					m.stores[k] = append(m.stores[k], rbStore{target, val, w.Conds(), at.Pos(), w.FuncName()})
+				}
 			}
 		}
+		p.SymWalk(pk, fd, proto, nil)
+		if len(m.stores["conforms"]) == 0 {
+			continue
+		}
+		// prefer the candidate in which the buckets are resolved down to the evaluation result
+		resolved := 0
+		for _, st := range m.stores["resultSeverity"] {
+			if st.target != nil && st.target.K == symElem {
+				if _, ok := rbBucketKey(st.target.X); ok {
+					resolved++
+				}
+			}
+		}
+		if best == nil || resolved > func() int {
+			n := 0
+			for _, st := range best.stores["resultSeverity"] {
+				if st.target != nil && st.target.K == symElem {
+					if _, ok := rbBucketKey(st.target.X); ok {
+						n++
+					}
+				}
+			}
+			return n
+		}() {
+			best = m
+		}
 	}
-	p.SymWalk(pk, build, proto, nil)
-	return m, nil
+	if best == nil {
+		return nil, fmt.Errorf("no function taking the evaluation result builds a report node with a conforms key")
+	}
+	return best, nil
 }
 
 // resultListProblems: the value stored under "result" must be the list of every element of every bucket, each bucket once.
